@@ -212,6 +212,12 @@ where
         self.link_ops(&ops)?;
         let mut vm = VM::with_pointer(self.strict, ops, &self.working_dir);
         if let Some(path) = path {
+            // The file we build is being evaluated too. An import that leads
+            // back to it is a cycle just like one between imported files.
+            let own: Rc<str> = crate::path::normalize(path.clone())
+                .to_string_lossy()
+                .into();
+            vm = vm.with_import_stack(vec![own]);
             vm.set_path(path);
         }
         if self.validate_mode {
